@@ -1,6 +1,7 @@
 #!/bin/bash
-# tools/try_seed.sh <seeded-dir> <PROP> [more props]: apply the patch to /repo, run the checks, undo.
+# tools/try_seed.sh <seeded-dir> <PROP> [more props]: apply the patch to /repo, run the checks, undo it.
+# (undo by reverse-applying the patch, so uncommitted contract edits in /repo survive)
 d="$1"; shift
 git -C /repo apply "/verif/seeded/$d/patch.diff" || exit 2
 for p in "$@"; do /verif/check "$p" --no-evidence 2>&1 | grep -E "^(VIOLATION|KNOWN|govc|FAILED)" | cut -c1-300; done
-git -C /repo checkout -- .
+git -C /repo apply -R "/verif/seeded/$d/patch.diff"
